@@ -1,6 +1,8 @@
 import MosnVerif.Drive.Downstream
 import MosnVerif.Drive.DownstreamMC
 import MosnVerif.Model.DownstreamSpec
+import MosnVerif.Model.DownstreamBackoff
+import MosnVerif.Drive.C03ReplyWrite
 /-!
 C03 driver.  `A` = the model's trace, ledger and done flag equal the implementation's, token for token.
 `Spec` (about the IMPLEMENTATION's output, written against the declarative sender automaton of DownstreamSpec and the
@@ -177,6 +179,7 @@ def boOk (cs : Case) (schedT : String) (i : Impl) (t : List Ev) : Bool :=
 
 def run (caseToks impl : List String) : String :=
   if caseToks.head? == some "mc" then DownstreamMC.run caseToks else
+  if caseToks.head? == some "rw" then C03RW.run caseToks impl else   -- c03w10: the reply write path with a failing sender (Drive/C03ReplyWrite.lean)
   if caseToks.head? == some "upf" then upfRun caseToks impl else
   match parseCase caseToks, parseImpl impl with
   | some cs, some i =>
